@@ -522,6 +522,7 @@ func processLogEventLimits(app *App) {
 	collectorReportPeriod := float64(app.connectReply.EventHarvestConfig.EventConfigs.LogEventConfig.ReportPeriod)
 
 	// convert agent log limit to sampling period used for log events
+	agentLogLimitValid := agentLogLimit >= 0
 	agentLogLimit = int((float64(agentLogLimit) * collectorReportPeriod) / agentReportPeriod)
 
 	log.Debugf("handling log limits: agent_report_period = %f collector_report_period = %f", agentReportPeriod, collectorReportPeriod)
@@ -529,8 +530,10 @@ func processLogEventLimits(app *App) {
 
 	// A negative agent limit (an out-of-range value sent by the agent, or an
 	// overflow in the conversion above) is ignored, as NewHarvestLimits does.
+	// The sign is tested before and after the scaling: a small negative value
+	// scaled to a short report period is truncated to zero by the conversion.
 	finalLogLimit := collectorLogLimit
-	if agentLogLimit >= 0 && agentLogLimit < collectorLogLimit {
+	if agentLogLimitValid && agentLogLimit >= 0 && agentLogLimit < collectorLogLimit {
 		finalLogLimit = agentLogLimit
 		log.Debugf("handling log limits: agent_log_limit = %d selected over collectorLogLimit = %d", agentLogLimit, collectorLogLimit)
 	}
